@@ -10,15 +10,54 @@ HERE = os.path.dirname(os.path.abspath(__file__))
 sys.path.insert(0, os.path.dirname(HERE))
 
 
-def _load_specs():
+def _load_specs(prop=None):
     sys.path.insert(0, os.path.join(os.path.dirname(HERE), 'selftest'))
     import mutants
     importlib.reload(mutants)
-    return mutants.SPECS
+    specs = list(mutants.SPECS)
+    specs.extend(_patch_specs(prop))
+    return specs
+
+
+def _patch_specs(prop):
+    """The sub-agents' seeded changes (must be reported by their property's check) and behaviour-preserving refactorings
+    (every check must stay silent on every one of them), applied in memory from their patch.diff."""
+    import glob
+    import json
+    root = os.path.dirname(HERE)
+    out = []
+    for d in sorted(glob.glob(os.path.join(root, 'seeded', '*'))):
+        try:
+            meta = json.load(open(os.path.join(d, 'meta.json')))
+        except (OSError, ValueError):
+            continue
+        name = os.path.basename(d)
+        for p in meta.get('detected_by_checks', []) + meta.get('analysis_error_in_checks', []):
+            if p != meta.get('property'):
+                continue
+            out.append({'prop': p, 'name': 'seed-%s' % name, 'kind': 'mutant', 'patch': os.path.join(d, 'patch.diff'), 'edits': [],
+                        'accept_analysis_error': p in meta.get('analysis_error_in_checks', [])})
+    props = [prop] if prop else sorted({s['prop'] for s in out})
+    for d in sorted(glob.glob(os.path.join(root, 'refactorings', '*'))):
+        if not os.path.exists(os.path.join(d, 'patch.diff')):
+            continue
+        name = os.path.basename(d)
+        for p in props:
+            out.append({'prop': p, 'name': 'refactoring-%s-vs-%s' % (name, p), 'kind': 'variant', 'patch': os.path.join(d, 'patch.diff'), 'edits': []})
+    return out
 
 
 def _apply(repo_root, spec):
     """-> overlay dict or None if the anchor is missing."""
+    if spec.get('patch'):
+        from sa.patch import apply_patch
+        with open(spec['patch'], encoding='utf-8') as f:
+            pt = f.read()
+
+        def rd(rel):
+            with open(os.path.join(repo_root, rel), encoding='utf-8') as f:
+                return f.read()
+        return apply_patch(pt, rd)
     overlay = {}
     for rel, old, new in spec['edits']:
         p = os.path.join(repo_root, rel)
@@ -67,7 +106,7 @@ def _run_one(args):
 
 
 def run_for(prop, repo_root, jobs=16, names=None):
-    specs = [s for s in _load_specs() if (prop is None or s['prop'] == prop) and (names is None or s['name'] in names)]
+    specs = [s for s in _load_specs(prop) if (prop is None or s['prop'] == prop) and (names is None or s['name'] in names)]
     if not specs:
         return None
     t0 = time.time()
